@@ -6,11 +6,12 @@ Line-protocol driver for C04 (cache transparency).  One request = one whole case
 graph  : nodes joined by `;` (node id = position):
            P | R/<kind>/<base>/<sel>/<len>/<mode>/<acc>/<invs>/<port> | G/<pValue>/<copies> | C/<pValue>/<cmdValue>
            | O/<pValue>/<on>/<off> (Boolean) | E/<pValue>/<values> (Enumeration)
+           | K/<n>:<impl|->:<avail|->:<locked|->,.. (controller table, last node only)
          kind: I<l|b><s|u> | M<l|b><s|u>.<lsb>.<msb> | F<l|b> | S | B      sel: - | <node>*<offset>
          mode: WT|WA|NC   acc: RO|WO|RW   invs: - | n,n,..
 device : <memhex>/<noAccess>/<noWrite>/<rejW>[/<rejP>]   ranges `a+l,..` or `-`; rejW `k,..` or `-`;
          rejP `k:m:<junkhex>,..` or `-` (non-atomic rejection of write attempt k)
-ops    : joined by `;`: v/n  s/n/<val>  r/n/<buflen>  w/n/<hex>  e/n  d/n  pr/n/a/l  pw/n/a/<hex>  cc  a/n
+ops    : joined by `;`: v/n  s/n/<val>  r/n/<buflen>  w/n/<hex>  e/n  d/n  pr/n/a/l  pw/n/a/<hex>  cc  a/n  ir/n  iw/n
          val: i<int> | f<width>.<bits> | x<hex> | b0 | b1
 answer : <results joined by ,>#<final image hex>#<access log oldest first>
 -/
@@ -64,6 +65,15 @@ def parseAcc : String → Option Acc
   | "RW" => some .rw
   | _ => none
 
+def parseOptNat (s : String) : Option (Option Nat) :=
+  if s == "-" then some none else s.toNat?.map some
+
+/-- `<node>:<pIsImplemented|->:<pIsAvailable|->:<pIsLocked|->` -/
+def parseCtl (s : String) : Option (NodeId × (Option NodeId × Option NodeId × Option NodeId)) :=
+  match s.splitOn ":" with
+  | [n, i, a, l] => do pure ((← n.toNat?), ((← parseOptNat i), (← parseOptNat a), (← parseOptNat l)))
+  | _ => none
+
 def parseNode (s : String) : Option Node :=
   match s.splitOn "/" with
   | ["P"] => some .port
@@ -74,6 +84,7 @@ def parseNode (s : String) : Option Node :=
   | ["C", pv, cv] => do pure (.command (← pv.toNat?) (← cv.toInt?))
   | ["O", pv, on, off] => do pure (.boolean (← pv.toNat?) (← on.toInt?) (← off.toInt?))
   | ["E", pv, vals] => do pure (.enumeration (← pv.toNat?) (← parseList (·.toInt?) vals ","))
+  | ["K", tbl] => do pure (.ctls (← parseList parseCtl tbl ","))
   | _ => none
 
 def parseRange (s : String) : Option (Int × Nat) :=
@@ -120,6 +131,8 @@ def parseOp (s : String) : Option Op :=
   | ["pw", n, a, d] => do pure (.portWrite (← n.toNat?) (← a.toInt?) (← hexToBytes d))
   | ["cc"] => some .clearCache
   | ["a", n] => do pure (.address (← n.toNat?))
+  | ["ir", n] => do pure (.isReadable (← n.toNat?))
+  | ["iw", n] => do pure (.isWritable (← n.toNat?))
   | _ => none
 
 def errName : Err → String
@@ -163,6 +176,10 @@ def handle : List String → String
       let ports := (List.range g.length).filter fun i => g[i]? == some Node.port
       s!"{if declaredB p g then 1 else 0} " ++ ",".intercalate (ports.map fun i => s!"{i}:{if portDeclaredB g i then 1 else 0}")
     | _, _ => "bad-op"
+  | ["declh", p, g, ops] =>
+    match profileOf p, parseList parseNode g ";", parseList parseOp ops ";" with
+    | some p, some g, some ops => if declaredForB p g ops then "1" else "0"
+    | _, _, _ => "bad-op"
   | [c, p, g, d, ops] =>
     match profileOf p, parseList parseNode g ";", parseDev d, parseList parseOp ops ";" with
     | some p, some g, some d, some ops =>
